@@ -27,6 +27,8 @@ def inj_label(inject, ops_by_idx):
         return f"fault:{inject[2]}@{ops_by_idx.get(inject[1], '?')}"
     if inject[0] == "fault+cancel":
         return f"fault:{inject[2]}@{ops_by_idx.get(inject[1], '?')}+cancel:native:cleanup"
+    if inject[0] == "trace-raise+cancel":
+        return f"trace-raise:{inject[1]}+cancel:native:cleanup"
     if inject[0] == "trace-raise":
         return f"trace-raise:{inject[1]}"
     return f"cancel:{inject[1]}"
@@ -97,6 +99,12 @@ def run_enumeration(case, judge, counters_init):
         if case["tier"] == "quick" and len(tr) > 12:
             tr = sorted(rng.sample(tr, 12))
         cancels = cancels + tr
+        if flavor == "asyncio" and "yielding-trace" in context:
+            # ... and then a task cancellation inside the clean-up (the awaiting callback is where it can land)
+            tr2 = [("trace-raise+cancel", suf, n, j) for (_, suf, n) in tr for j in (1, 2, 3)]
+            if case["tier"] == "quick" and len(tr2) > 24:
+                tr2 = sorted(rng.sample(tr2, 24))
+            cancels = cancels + tr2
         cnt["yields_enumerated"] += K
         cnt["ops_enumerated"] += len(ops)
         sample.update({"case": case, "victim_suspension_points": K, "network_ops": [o[1] for o in ops][:40],
@@ -109,6 +117,9 @@ def run_enumeration(case, judge, counters_init):
             if inject[0] == "fault":
                 cnt["fault_runs"] += 1
                 cnt["faults_fired"] += 1 if res["fired"] else 0
+            elif inject[0] == "trace-raise+cancel":
+                cnt["trace_raise_cancel_runs"] = cnt.get("trace_raise_cancel_runs", 0) + 1
+                cnt["trace_raise_cancel_both_fired"] = cnt.get("trace_raise_cancel_both_fired", 0) + (1 if res["fired"] and res.get("fault_fired") else 0)
             elif inject[0] == "trace-raise":
                 cnt["trace_raise_runs"] = cnt.get("trace_raise_runs", 0) + 1
                 cnt["trace_raise_fired"] = cnt.get("trace_raise_fired", 0) + (1 if res["fired"] else 0)
